@@ -96,6 +96,107 @@ def factors(t):
     return None
 
 
+LSE = (("ext", "jax.nn.logsumexp"), ("ext", "jax.scipy.special.logsumexp"))
+
+
+def _lse_parts(t):
+    """logsumexp(a, axis=k) -> (a, k) for a constant integer axis, else None."""
+    if t[0] == "call" and t[1] in LSE:
+        kw = _kw(t)
+        a = kw.get("a") if "a" in kw else (t[2][0] if t[2] else None)
+        ax = kw.get("axis") if "axis" in kw else (t[2][1] if len(t[2]) > 1 else None)
+        if a is not None and ax is not None and is_const(ax) and isinstance(ax[1], int):
+            return a, ax[1]
+    return None
+
+
+def _payload_any_shape(t, sibling):
+    """activation log-gradients reshaped to the carried vector's own shape (reshape(p, V.shape) / p.reshape(V.shape))"""
+    if t[0] == "call" and t[1] == ("ext", "jax.numpy.reshape"):
+        shp = _kw(t).get("shape") or _kw(t).get("newshape")
+        if shp is not None and shp[0] == "attr" and shp[2] == "shape" and same(shp[1], sibling):
+            return _act_payload(_kw(t).get("a"))
+    if t[0] == "call" and t[1][0] == "attr" and t[1][2] == "reshape" and len(t[2]) == 1:
+        shp = t[2][0]
+        if shp[0] == "attr" and shp[2] == "shape" and same(shp[1], sibling):
+            return _act_payload(t[1][1])
+    h = _act_payload(t)
+    return h if h is not None and not (isinstance(h, tuple) and h and h[0] == "badshape") else None
+
+
+def _vec(t):
+    """Factor list of a carried (dim, block) log-Jacobian VECTOR (a column: the product applied so far), or None.
+    W . v = logsumexp(W + v[:, None, :], axis=2);  the other alignment, logsumexp(W + v[:, :, None], axis=1), is W^T . v
+    and is recorded as ('linT', i)."""
+    if t[0] == "sub" and t[2][0] == "tuple" and len(t[2][1]) == 3:
+        i0, i1, i2 = t[2][1]
+        fm = factors(t[1])
+        if fm is not None and len(fm) == 1 and fm[0][0] == "lin" and _is_slice_all(i0) and _is_slice_all(i1) and i2 == C(0):
+            return fm                      # the single column of a (block, 1) first-layer block
+        return None
+    lp = _lse_parts(t)
+    if lp is not None:
+        a, ax = lp
+        if a[0] == "add" and len(a[1]) == 2:
+            for w, v in (a[1], a[1][::-1]):
+                fw = factors(w)
+                if fw is None or len(fw) != 1 or fw[0][0] != "lin":
+                    continue
+                if v[0] == "sub" and v[2][0] == "tuple" and len(v[2][1]) == 3 and _is_slice_all(v[2][1][0]):
+                    fv = _vec(v[1])
+                    if fv is None:
+                        continue
+                    i1, i2 = v[2][1][1], v[2][1][2]
+                    if i1 == NONE and _is_slice_all(i2) and ax in (2, -1):
+                        return fw + fv                       # sum over the input index: W . v
+                    if _is_slice_all(i1) and i2 == NONE and ax in (1, -2):
+                        return [("linT", fw[0][1])] + fv     # sum over the OUTPUT index: W^T . v
+        return None
+    if t[0] == "add":
+        terms = list(t[1])
+        vecs = [(j, _vec(x)) for j, x in enumerate(terms)]
+        vecs = [(j, f) for j, f in vecs if f is not None]
+        if len(vecs) != 1:
+            return None
+        j, fv = vecs[0]
+        diags = []
+        for k2, x in enumerate(terms):
+            if k2 == j:
+                continue
+            h = _payload_any_shape(x, terms[j])
+            if h is None:
+                return None
+            diags.append(("diag", h))
+        return diags + fv
+    return None
+
+
+def vector_factors(t):
+    """The log-det written with a carried vector: logsumexp(row + v, axis=-1) with row = J_d(L_d)[:, 0, :], or the row
+    alone (depth 0).  -> factor list or None."""
+    if t[0] == "sub" and t[2][0] == "tuple" and len(t[2][1]) == 3:
+        fm = factors(t[1])
+        i0, i1, i2 = t[2][1]
+        if fm is not None and len(fm) == 1 and _is_slice_all(i0) and i1 == C(0) and _is_slice_all(i2):
+            return fm
+        return None
+    lp = _lse_parts(t)
+    if lp is None:
+        return None
+    a, ax = lp
+    if ax not in (1, -1) or a[0] != "add":
+        return None
+    terms = list(a[1])
+    rows = [(j, vector_factors(x)) for j, x in enumerate(terms) if x[0] == "sub"]
+    rows = [(j, f) for j, f in rows if f is not None and len(f) == 1 and f[0][0] == "lin" and terms[j][2][1][1] == C(0)]
+    if len(rows) != 1:
+        return None
+    j, fr = rows[0]
+    rest = [x for k2, x in enumerate(terms) if k2 != j]
+    fv = _vec(rest[0] if len(rest) == 1 else ("add", tuple(rest)))
+    return None if fv is None else fr + fv
+
+
 def pre_activations(value):
     """h terms the value path feeds to the activation, outermost (last layer's input) first."""
     out = []
@@ -136,6 +237,8 @@ def rule_bnaf_logdet(prog, rep, R="C02.bnaf"):
             rep.undecided(R, site, k, f"log-det is not a full sum: {show(ld, 160)}")
             continue
         fs = factors(_kw(ld)["a"])
+        if fs is None:
+            fs = vector_factors(_kw(ld)["a"])       # the product carried forward as a (dim, block) vector
         badshape = [f for f in (fs or []) if f[0] == "diag" and isinstance(f[1], tuple) and f[1] and f[1][0] == "badshape"]
         if badshape:
             rep.violated(R, site, k, f"the activation log-gradients are reshaped to {show(badshape[0][1][1], 80)} before being "
@@ -156,6 +259,8 @@ def rule_bnaf_logdet(prog, rep, R="C02.bnaf"):
         def name(f):
             if f[0] == "lin":
                 return f"Lin({f[1]})"
+            if f[0] == "linT":
+                return f"Lin({f[1]})^T [summed over the output index]"
             for j, h in enumerate(hs):
                 if same(f[1], h):
                     return f"Diag(act@layer{d - 1 - j})"
